@@ -1,1 +1,234 @@
-From GV Require Import Lib.Tactics Gas.GoArith Gas.Budget_gen Gas.Pool_gen Gas.BudgetMachine Gas.Budget Gas.Pool.
+(* Properties/C31.v — Two-dimensional gas accounting conserves gas.
+   Property theorems only; each is closed by [exact] of a lemma of Gas/Budget.v,
+   Gas/Pool.v or Gas/Settle.v.  The statements are about the definitions that
+   tools/go2coq GENERATES from /repo/core/vm/gascosts.go (Gas/Budget_gen.v) and
+   /repo/core/gaspool.go (Gas/Pool_gen.v) on every run, with uint64/int64
+   wrap-around written out (u64 / i64 of Gas/GoArith.v); Ex/St/UE/US/Sp abbreviate
+   the generated field projections.  Guards are explicit: [frame_ok E0 R n g] is the
+   frame invariant (I1) Ex+UE+Sp = E0, (I2) St+US-Sp = R, 0 <= n+US, all uint64
+   fields >= 0 and E0+R+n < 2^63; [guard] is the callers' precondition of each op. *)
+From GV Require Import Lib.Tactics Gas.GoArith Gas.Budget_gen Gas.Pool_gen Gas.BudgetMachine Gas.Budget Gas.Pool Gas.SettleModel Gas.Settle.
+Local Open Scope Z_scope.
+
+(* a charge succeeds exactly when affordability is reported — for every bit
+   pattern of the budget and the cost, no invariant needed *)
+Theorem C31_charge_ok_iff_canafford : forall g c,
+  snd (GasBudget_charge g c) = GasBudget_CanAfford g c /\
+  snd (GasBudget_Charge g c) = GasBudget_CanAfford g c.
+Proof. intros; split; [apply charge_ok_iff_canafford | apply Charge_ok_iff_canafford]. Qed.
+Print Assumptions C31_charge_ok_iff_canafford.
+
+Theorem C31_charge_fail_unchanged : forall g c,
+  snd (GasBudget_charge g c) = false -> fst (GasBudget_charge g c) = g.
+Proof. exact charge_fail_unchanged. Qed.
+Print Assumptions C31_charge_fail_unchanged.
+
+(* execution+state charges with spill-over keep (I1), (I2) *)
+Theorem C31_charge_conserves : forall E0 R n g ce cs,
+  frame_ok E0 R n g -> u64_range ce -> u64_range cs ->
+  frame_ok E0 R n (fst (GasBudget_charge g (mkGasCosts ce cs))).
+Proof. exact charge_conserves. Qed.
+Print Assumptions C31_charge_conserves.
+
+Theorem C31_charge_exec_only_conserves : forall E0 R n g r,
+  frame_ok E0 R n g -> u64_range r ->
+  frame_ok E0 R n (fst (GasBudget_ChargeExecutionOnly g r)).
+Proof. exact charge_exec_only_conserves. Qed.
+Print Assumptions C31_charge_exec_only_conserves.
+
+(* a state refund no larger than the transaction's outstanding net state usage *)
+Theorem C31_refund_conserves : forall E0 R n g s,
+  frame_ok E0 R n g -> 0 <= s <= n + US g ->
+  frame_ok E0 R n (GasBudget_RefundState g s).
+Proof. exact refund_conserves. Qed.
+Print Assumptions C31_refund_conserves.
+
+Theorem C31_drain_conserves : forall E0 R n g,
+  frame_ok E0 R n g -> frame_ok E0 R n (GasBudget_DrainExecution g).
+Proof. exact drain_conserves. Qed.
+Print Assumptions C31_drain_conserves.
+
+(* parent + child totals across Forward ... Exit ... Absorb *)
+Theorem C31_forward_absorb_conserves : forall E0 R n g e,
+  frame_ok E0 R n g -> 0 <= e <= Ex g ->
+  let p := fst (GasBudget_Forward g e) in
+  let c0 := snd (GasBudget_Forward g e) in
+  tot p + tot c0 - e = tot g /\
+  forall c x, frame_ok e (St g) (n + US p) c ->
+    frame_ok E0 R n (GasBudget_Absorb p (exit_of x c)) /\
+    tot p + tot (exit_of x c) - e = tot g /\
+    tot (GasBudget_Absorb p (exit_of x c)) = tot g.
+Proof. exact forward_absorb_conserves. Qed.
+Print Assumptions C31_forward_absorb_conserves.
+
+(* a reverted / halted frame hands back the reservoir it started with
+   (so the [reservoir < 0] branch of the Go code is dead under the invariant) *)
+Theorem C31_exit_revert_reservoir : forall E0 R n g,
+  frame_ok E0 R n g ->
+  St (GasBudget_ExitRevert g) = R /\ US (GasBudget_ExitRevert g) = 0 /\
+  Sp (GasBudget_ExitRevert g) = 0 /\ Ex (GasBudget_ExitRevert g) = Ex g + Sp g /\
+  UE (GasBudget_ExitRevert g) = UE g.
+Proof. exact exit_revert_reservoir. Qed.
+Print Assumptions C31_exit_revert_reservoir.
+
+Theorem C31_exit_halt : forall E0 R n g,
+  frame_ok E0 R n g ->
+  St (GasBudget_ExitHalt g) = R /\ US (GasBudget_ExitHalt g) = 0 /\
+  Sp (GasBudget_ExitHalt g) = 0 /\ Ex (GasBudget_ExitHalt g) = 0 /\
+  UE (GasBudget_ExitHalt g) = E0.
+Proof. exact exit_halt_reservoir. Qed.
+Print Assumptions C31_exit_halt.
+
+(* never underflows: under the invariant and the guards every generated operation
+   equals its reading over unbounded integers (plain + and -, no mod) *)
+Theorem C31_no_underflow :
+  (forall E0 R n g ce cs, frame_ok E0 R n g -> u64_range ce -> u64_range cs ->
+     GasBudget_charge g (mkGasCosts ce cs) = charge_spec g ce cs) /\
+  (forall E0 R n g r, frame_ok E0 R n g -> u64_range r ->
+     GasBudget_ChargeExecutionOnly g r = charge_exec_only_spec g r) /\
+  (forall E0 R n g s, frame_ok E0 R n g -> 0 <= s <= n + US g ->
+     GasBudget_RefundState g s = refund_spec g s) /\
+  (forall E0 R n g, frame_ok E0 R n g -> GasBudget_DrainExecution g = drain_spec g) /\
+  (forall E0 R n g e, frame_ok E0 R n g -> 0 <= e <= Ex g ->
+     GasBudget_Forward g e = forward_spec g e) /\
+  (forall E0 R n g, frame_ok E0 R n g -> GasBudget_ExitRevert g = exit_revert_spec g) /\
+  (forall E0 R n g, frame_ok E0 R n g -> GasBudget_ExitHalt g = exit_halt_spec g) /\
+  (forall E0 R n p f Rc c, susp_ok E0 R n p f Rc -> frame_ok f Rc (n + US p) c ->
+     GasBudget_Absorb p c = absorb_spec p c).
+Proof. exact no_underflow_ops. Qed.
+Print Assumptions C31_no_underflow.
+
+Theorem C31_history_no_underflow : forall E S ops st,
+  0 <= E -> 0 <= S -> E + S < T63 ->
+  grun (minit E S) ops = Some st ->
+  mrun (minit E S) ops = mrun_spec (minit E S) ops.
+Proof. exact history_no_underflow. Qed.
+Print Assumptions C31_history_no_underflow.
+
+(* all histories, including arbitrarily nested Forward/Exit/Absorb trees *)
+Theorem C31_history_conserves : forall E S ops st,
+  0 <= E -> 0 <= S -> E + S < T63 ->
+  grun (minit E S) ops = Some st ->
+  mrun (minit E S) ops = st /\
+  exec_total st = E /\ state_total st = S /\
+  remaining st + used st = E + S /\
+  fields_bounded (E + S) st /\
+  (stack st = [] -> I (cur st) E S /\ 0 <= US (cur st)).
+Proof. exact history_conserves. Qed.
+Print Assumptions C31_history_conserves.
+
+(* Used(initial) of the outermost frame is the scalar gas consumed, within the budget *)
+Theorem C31_used_is_consumed : forall E0 R g,
+  frame_ok E0 R 0 g ->
+  GasBudget_Used g (NewGasBudget E0 R) = UE g + US g /\ 0 <= UE g + US g <= E0 + R.
+Proof. exact used_no_wrap. Qed.
+Print Assumptions C31_used_is_consumed.
+
+(* ---- block gas pool (guard: header gas limit < 2^63) ---- *)
+
+Theorem C31_pool_check_amsterdam : forall gp er sr,
+  pool_ams gp -> 0 <= er < P64 -> 0 <= sr < P64 ->
+  GasPool_CheckGasAmsterdam gp er sr =
+    (gp, if (er <=? Ini gp - CE gp) && (sr <=? Ini gp - CS gp) then 0 else ErrGasLimitReached).
+Proof. exact check_amsterdam_spec. Qed.
+Print Assumptions C31_pool_check_amsterdam.
+
+Theorem C31_pool_charge_amsterdam : forall gp te ts ru,
+  pool_ams gp -> 0 <= te < P63 -> 0 <= ts < P63 -> 0 <= ru <= te + ts ->
+  let r := GasPool_ChargeGasAmsterdam gp te ts ru in
+  (snd r = 0 /\ CE gp + te <= Ini gp /\ CS gp + ts <= Ini gp /\
+   fst r = mkGasPool (Ini gp - (CE gp + te)) (Ini gp) (CU gp + ru) (CE gp + te) (CS gp + ts) /\
+   pool_ams (fst r))
+  \/
+  (snd r = ErrGasLimitReached /\ fst r = gp /\ (Ini gp < CE gp + te \/ Ini gp < CS gp + ts)).
+Proof. exact charge_amsterdam_spec. Qed.
+Print Assumptions C31_pool_charge_amsterdam.
+
+Theorem C31_pool_within_limits_amsterdam : forall limit txs,
+  0 <= limit < P63 -> Forall ams_tx_ok txs ->
+  let gp := ams_block (NewGasPool limit) txs in
+  pool_ams gp /\ Ini gp = limit /\
+  GasPool_Used gp = Some (gp, Z.max (CE gp) (CS gp)) /\
+  Z.max (CE gp) (CS gp) <= limit /\ 0 <= Rem gp <= limit /\ CU gp <= 2 * limit.
+Proof. exact pool_within_limits_amsterdam. Qed.
+Print Assumptions C31_pool_within_limits_amsterdam.
+
+Theorem C31_pool_legacy_tx : forall gp limit returned used,
+  pool_legacy gp -> 0 <= limit < P64 -> limit <= Rem gp ->
+  0 <= returned -> 0 <= used -> returned + used = limit ->
+  let gp1 := fst (GasPool_CheckGasLegacy gp limit) in
+  snd (GasPool_CheckGasLegacy gp limit) = 0 /\
+  GasPool_ChargeGasLegacy gp1 returned used =
+    (mkGasPool (Rem gp - used) (Ini gp) (CU gp + used) (CE gp) (CS gp), 0) /\
+  pool_legacy (fst (GasPool_ChargeGasLegacy gp1 returned used)).
+Proof. exact legacy_tx_ok. Qed.
+Print Assumptions C31_pool_legacy_tx.
+
+Theorem C31_pool_within_limits_legacy : forall limit txs,
+  0 <= limit < P64 -> Forall legacy_tx_wf txs ->
+  let gp := legacy_block (NewGasPool limit) txs in
+  pool_legacy gp /\ Ini gp = limit /\
+  GasPool_Used gp = Some (gp, CU gp) /\ 0 <= CU gp <= limit /\ 0 <= Rem gp <= limit.
+Proof. exact pool_within_limits_legacy. Qed.
+Print Assumptions C31_pool_within_limits_legacy.
+
+(* ---- transaction settlement (hand model Gas/SettleModel.v of settleGas / calcRefund) ---- *)
+
+Theorem C31_used_le_limit : forall E S intrinsic g gasLimit floor counter london prague r,
+  frame_ok E S 0 g -> 0 <= intrinsic -> gasLimit = intrinsic + E + S -> gasLimit < T63 ->
+  0 <= floor <= gasLimit -> 0 <= counter < T64 ->
+  settle_calc g gasLimit floor counter london prague = Some r ->
+  0 <= s_gasUsed r <= gasLimit /\ s_gasUsed r + s_gasLeft r = gasLimit /\
+  s_gasUsed r <= s_peakUsed r <= gasLimit.
+Proof. exact used_le_limit. Qed.
+Print Assumptions C31_used_le_limit.
+
+Theorem C31_refund_le_fifth : forall E S intrinsic g gasLimit floor counter prague r,
+  frame_ok E S 0 g -> 0 <= intrinsic -> gasLimit = intrinsic + E + S -> gasLimit < T63 ->
+  0 <= floor <= gasLimit -> 0 <= counter < T64 ->
+  settle_calc g gasLimit floor counter true prague = Some r ->
+  5 * s_refund r <= intrinsic + UE g + US g /\ s_refund r <= counter.
+Proof. exact refund_le_fifth. Qed.
+Print Assumptions C31_refund_le_fifth.
+
+(* settlement never fails and nothing in it wraps; the figures charged to the block
+   pool satisfy the hypotheses of C31_pool_charge_amsterdam *)
+Theorem C31_settle_ok : forall E S intrinsic g gasLimit floor counter london prague,
+  frame_ok E S 0 g -> 0 <= intrinsic -> gasLimit = intrinsic + E + S -> gasLimit < T63 ->
+  0 <= floor <= gasLimit -> 0 <= counter < T64 ->
+  exists r, settle_calc g gasLimit floor counter london prague = Some r /\
+    let before := intrinsic + UE g + US g in
+    s_txState r = US g /\
+    s_txExec r = Z.max (intrinsic + UE g) floor /\
+    s_refund r = calc_refund london before counter /\
+    s_refund r <= before / (if london then 5 else 2) /\
+    0 <= s_gasUsed r <= gasLimit /\ s_gasUsed r + s_gasLeft r = gasLimit /\ 0 <= s_gasLeft r /\
+    s_gasUsed r = (if prague then Z.max (before - s_refund r) floor else before - s_refund r) /\
+    s_gasUsed r <= s_peakUsed r <= gasLimit /\
+    0 <= s_txState r <= gasLimit /\ 0 <= s_txExec r <= gasLimit /\
+    s_gasUsed r <= s_txExec r + s_txState r.
+Proof. exact settle_ok. Qed.
+Print Assumptions C31_settle_ok.
+
+(* non-vacuity: a guarded history with a spill into execution gas, a nested call that
+   charges state gas and reverts, a second call that succeeds, a refund that repays the
+   spill, from E = 100, S = 10; and a two-transaction Amsterdam block *)
+Example C31_nonvacuous :
+  let ops := [OCharge 5 25; OForward 40; OChargeState 30; OReturn XRevert;
+              OForward 20; OCharge 3 7; OForwardAll; OChargeExecOnly 4; OReturn XHalt;
+              OReturn XSuccess; ORefund 12; ODrain] in
+  grun (minit 100 10) ops
+    = Some (mkM (mkGasBudget 0 0 90 20 10) []) /\
+  frame_ok 100 10 0 (mkGasBudget 80 0 5 25 15) /\
+  fst (GasBudget_charge (NewGasBudget 100 10) (mkGasCosts 5 25)) = mkGasBudget 80 0 5 25 15 /\
+  Forall ams_tx_ok [mkAmsTx 60 60 50 10 55; mkAmsTx 40 40 40 30 60] /\
+  ams_block (NewGasPool 100) [mkAmsTx 60 60 50 10 55; mkAmsTx 40 40 40 30 60]
+    = mkGasPool 10 100 115 90 40 /\
+  settle_calc (mkGasBudget 0 0 90 20 10) 131 0 50 true true
+    = Some (mkSettled 20 111 105 131 26 26).
+Proof.
+  cbn zeta. split; [vm_compute; reflexivity|]. split; [unfold frame_ok, I, T63; cbn; lia|].
+  split; [vm_compute; reflexivity|]. split.
+  - repeat constructor; unfold P64; cbn; lia.
+  - split; vm_compute; reflexivity.
+Qed.
